@@ -169,3 +169,74 @@ func mgrPollCombo(stopMask, rot int, sets []int) (problems []string, requests in
 	}
 	return problems, requests
 }
+
+// mgrFewNodesScenario: the same retry poll with only one or two nodes left in the manager (the
+// first announcer is a node that is gone: it was asked, never delivered, and is no longer
+// registered). Every remaining node announced the transaction inside the first window; after the
+// timeout each window's poll must ask one of them, until all have been asked.
+func mgrFewNodesScenario(nNodes int) func() func() []string {
+	return func() func() []string {
+		store := vstore.New()
+		repo := headers.NewRepository(headers.DefaultConfig(), store)
+		repo.InitializeWithGenesis()
+		cfg := bitcoin_reader.DefaultConfig()
+		peers := bitcoin_reader.NewPeerRepository(store, "")
+		nm := bitcoin_reader.NewNodeManager("/verif/", cfg, repo, peers)
+		txm := bitcoin_reader.NewTxManager(txTimeout)
+		txm.SetTxProcessor(&recProc{})
+		nm.SetTxManager(txm)
+		gone := bitcoin_reader.NewBitcoinNode("127.0.0.9:8333", "/verif/", cfg, repo, peers)
+		var nodes []*bitcoin_reader.BitcoinNode
+		for i := 0; i < nNodes; i++ {
+			node := bitcoin_reader.NewBitcoinNode(fmt.Sprintf("127.0.0.%d:8333", i+1), "/verif/", cfg, repo, peers)
+			node.SetTxManager(txm)
+			node.VerifOpenOutgoing()
+			node.VerifSetInterrupt(make(chan interface{}))
+			if err := node.VerifAccept(bg); err != nil {
+				panic(err)
+			}
+			node.VerifTakeOutgoing()
+			nm.VerifAddNode(node)
+			nodes = append(nodes, node)
+		}
+		tx := mkTx(4100)
+		var problems []string
+		if ok, _ := txm.AddTxID(bg, gone.ID(), *tx.TxHash()); !ok {
+			problems = append(problems, "announce: the first announcer was not told to request")
+		}
+		for _, n := range nodes {
+			if ok, _ := txm.AddTxID(bg, n.ID(), *tx.TxHash()); ok {
+				problems = append(problems, "announce: a later announcer inside the request window was told to request")
+			}
+		}
+		asked := make([]int, nNodes)
+		for window := 1; window <= nNodes; window++ {
+			vsched.Advance(txTimeout + time.Second)
+			got := 0
+			for poll := 0; poll < 2; poll++ {
+				if err := nm.RequestTxs(bg); err != nil {
+					problems = append(problems, "poll: RequestTxs returned "+err.Error())
+				}
+				for i, node := range nodes {
+					for _, msg := range node.VerifTakeOutgoing() {
+						if gd, ok := msg.(*wire.MsgGetData); ok {
+							for _, item := range gd.InvList {
+								if item.Hash == bitcoin.Hash32(*tx.TxHash()) {
+									asked[i]++
+									got++
+								}
+							}
+						}
+					}
+				}
+			}
+			if got != 1 {
+				problems = append(problems, fmt.Sprintf("mgr-poll-few-nodes: with %d node(s) left in the manager, the polls of request window %d asked %d of them for the undelivered transaction, want exactly 1 (asked so far per node: %v)", nNodes, window, got, asked))
+			}
+		}
+		return func() []string {
+			label(fmt.Sprintf("nodes=%d asked=%v ok=%t", nNodes, asked, len(problems) == 0))
+			return problems
+		}
+	}
+}
